@@ -493,7 +493,7 @@ def same_term(a, b) -> bool:
 class Stats:
     FIELDS = ('paths', 'completed_paths', 'aborted_paths', 'queries', 'solver_s', 'unknown_feasibility',
               'obligations', 'discharged', 'refuted', 'inconclusive', 'vacuity_witnesses',
-              'canaries', 'canaries_refuted', 'forks', 'max_depth')
+              'canaries', 'canaries_refuted', 'forks', 'max_depth', 'cache_hits', 'trivial_claims')
 
     def __init__(self):
         for f in self.FIELDS:
@@ -540,6 +540,8 @@ class SymEnv:
         self.canary_seen = {}       # name -> refuted?
         self.path_results = []
         self._uf_cache = {}
+        self._qcache = {}
+        self._qkeep = []
         self._fresh = itertools.count()
         self.replay = []
         self.trace = []
@@ -549,6 +551,7 @@ class SymEnv:
         self.draw_log = []
         self.sample_limit = 4
         self.notes = {}
+        self.claim_ms = {}
 
     # ---- path management -------------------------------------------------------------------
     def start_path(self, replay):
@@ -581,6 +584,20 @@ class SymEnv:
 
     # ---- solver ---------------------------------------------------------------------------
     def _check(self, *extra):
+        """one solver query: pc /\\ extra.  Results are memoised per (pc, extra) - terms are hash-consed, so an
+        identical query on another path (same decisions, same terms) is not sent twice."""
+        key = (tuple(c.get_id() for c in self.pc), tuple(c.get_id() for c in extra))
+        hit = self._qcache.get(key)
+        if hit is not None:
+            self.stats.cache_hits += 1
+            return hit
+        r = self._check_uncached(*extra)
+        if len(self._qcache) < 400000:
+            self._qcache[key] = r
+            self._qkeep.append((list(self.pc), extra))   # keep the ASTs alive so ids are not recycled
+        return r
+
+    def _check_uncached(self, *extra):
         s = z3.Solver()
         s.set("timeout", self.timeout_ms)
         if self.seed:
@@ -774,10 +791,16 @@ class SymEnv:
             self.stats.refuted += 1
             self.failures.append(Failure(name, list(self.trace), s.model(), 'False (decided by execution)', detail))
             return False
-        t = _b(cond)
+        t = z3.simplify(_b(cond))
+        if z3.is_true(t):
+            self.stats.discharged += 1
+            self.stats.trivial_claims += 1
+            self._sample(name, _b(cond), 'discharged (identical terms after simplification)', 0.0)
+            return True
         t0 = time.perf_counter()
         r, s = self._check(z3.Not(t))
         ms = (time.perf_counter() - t0) * 1000
+        self.claim_ms[name] = self.claim_ms.get(name, 0.0) + ms
         if r == z3.unsat:
             self.stats.discharged += 1
             self._sample(name, t, 'discharged', ms)
@@ -794,11 +817,15 @@ class SymEnv:
 
     def canary(self, name, cond):
         """a deliberately wrong claim: must be refuted on at least one path (vacuity / oracle-strength guard)"""
+        if self.canary_seen.get(name):
+            return      # already refuted once in this configuration: the oracle is known to be sharp enough
         self.stats.canaries += 1
         if isinstance(cond, bool):
             refuted = not cond
         else:
+            t0 = time.perf_counter()
             r, _ = self._check(z3.Not(_b(cond)))
+            self.claim_ms['canary:' + name] = self.claim_ms.get('canary:' + name, 0.0) + (time.perf_counter() - t0) * 1000
             refuted = (r == z3.sat)
         if refuted:
             self.stats.canaries_refuted += 1
